@@ -61,7 +61,8 @@ def real_of_float(x):
 
 
 class SNum(SVal):
-    """int (Int sort) or float (Real sort).  kind: 'int' | 'float' | 'npfloat' (numpy scalar)"""
+    """int (Int sort) or float (Real sort).  kind: 'int' | 'float' | 'npfloat' (numpy.float64, a float subclass) |
+    'npfloat32' (a numpy scalar that is a numpy.number but neither an int nor a float)"""
 
     __slots__ = ("t", "kind", "nan", "pinf", "ninf")
 
@@ -101,7 +102,7 @@ class SNum(SVal):
         return self.nan is not None
 
     def pytype(self):
-        return {"int": "int", "float": "float", "npfloat": "numpy.float64"}[self.kind]
+        return {"int": "int", "float": "float", "npfloat": "numpy.float64", "npfloat32": "numpy.float32"}[self.kind]
 
     def real(self):
         return z3.ToReal(self.t) if self.t.sort() == IntS else self.t
